@@ -7,18 +7,21 @@ import (
 
 // Term is a hash-consed SMT term. Sort: w==0 → Bool, else BitVec w.
 type Term struct {
-	op   string
-	w    int
-	args []*Term
-	val  uint64 // for const
-	name string // for var
-	id   int
+	op     string
+	w      int
+	args   []*Term
+	val    uint64 // for const
+	name   string // for var
+	id     int
+	tab    []uint64 // non-nil: the term is the 256-entry table tab[v] of the 8-bit variable tabVar
+	tabVar *Term
 }
 
 type TermTable struct {
 	m    map[string]*Term
 	next int
 	vars []*Term
+	tabN int
 }
 
 func NewTermTable() *TermTable { return &TermTable{m: map[string]*Term{}} }
@@ -122,6 +125,19 @@ func (tt *TermTable) Eq(a, b *Term) *Term {
 	if a.isConst() && b.isConst() {
 		return tt.BoolC(a.op == b.op && a.val == b.val)
 	}
+	if a.tab != nil && b.op == "const" {
+		a, b = b, a
+	}
+	if b.tab != nil && a.op == "const" {
+		// a table compared with a constant: true exactly for the variable values whose entry is that constant
+		res := tt.False()
+		for v, x := range b.tab {
+			if x == a.val {
+				res = tt.Or(res, tt.mk("=", 0, 0, "", b.tabVar, tt.BV(8, uint64(v))))
+			}
+		}
+		return res
+	}
 	if a.id > b.id {
 		a, b = b, a
 	}
@@ -211,6 +227,14 @@ func (p *Printer) Define(t *Term) {
 		return
 	}
 	op := t.op
+	if strings.HasPrefix(op, "tab:") {
+		fn := fmt.Sprintf("tab%s_%d", op[4:], t.id)
+		fmt.Fprintf(p.out, "(declare-fun %s ((_ BitVec 8)) %s)\n", fn, sortOf(t))
+		for v, x := range t.tab {
+			fmt.Fprintf(p.out, "(assert (= (%s (_ bv%d 8)) (_ bv%d %d)))\n", fn, v, x, t.w)
+		}
+		op = fn
+	}
 	if strings.HasPrefix(op, "uf:") {
 		op = op[3:]
 		if !p.defined[-len(op)*1000-int(op[len(op)-1])] && !p.ufs[op] {
